@@ -237,6 +237,9 @@ class Run:
   def __init__(self, prop: str, tier: str):
     self.prop = prop
     self.tier = tier
+    # a child pass (thorough tier re-run under the pinned Keras 3) writes its own files
+    self.tag = os.environ.get("QKV_CHILD_TAG", "")
+    self.fileid = prop + self.tag
     self.seed = seed()
     self.t0 = time.time()
     self.evaluations = 0
@@ -256,7 +259,7 @@ class Run:
     rdir = os.path.join(VERIF, "replays")
     if os.path.isdir(rdir):
       for f in os.listdir(rdir):
-        if f.startswith(prop + "-"):
+        if f.startswith(self.fileid + "-"):
           try:
             os.remove(os.path.join(rdir, f))
           except OSError:
@@ -317,7 +320,7 @@ class Run:
       groups.setdefault(json.dumps(v["key"], sort_keys=True), []).append(v)
     n_viol = 0
     for i, (gk, vs) in enumerate(sorted(groups.items())):
-      path = os.path.join("replays", "%s-%d-%d.json" % (self.prop, self.seed, i))
+      path = os.path.join("replays", "%s-%d-%d.json" % (self.fileid, self.seed, i))
       with open(os.path.join(VERIF, path), "w") as fh:
         json.dump({"property": self.prop, "kind": "clause-failure-on-implementation",
                    "key": vs[0]["key"], "cases": [v["detail"] for v in vs[:5]], "n_cases": len(vs),
@@ -340,7 +343,7 @@ class Run:
         broken.append({"what": "correspondence", "stream": s, "n": len(ds), "first": ds[:3]})
     if broken and n_viol == 0:
       # the property is no longer shown to hold, but no failing input was found
-      path = os.path.join("replays", "%s-%d-broken.json" % (self.prop, self.seed))
+      path = os.path.join("replays", "%s-%d-broken.json" % (self.fileid, self.seed))
       with open(os.path.join(VERIF, path), "w") as fh:
         json.dump({"property": self.prop, "kind": "no-failing-input-found", "broken": broken,
                    "note": "the listed theorem(s)/correspondence stream(s) no longer check; the clause "
@@ -352,15 +355,15 @@ class Run:
       exit_code = 1
     elif broken:
       # attach the broken obligations to the first replay for the record
-      with open(os.path.join(VERIF, "replays", "%s-%d-broken.json" % (self.prop, self.seed)), "w") as fh:
+      with open(os.path.join(VERIF, "replays", "%s-%d-broken.json" % (self.fileid, self.seed)), "w") as fh:
         json.dump({"property": self.prop, "kind": "broken-alongside-violation", "broken": broken}, fh,
                   indent=1, default=str)
     self._write_evidence(n_viol)
     for l in lines:
       print(l)
-    print("[%s %s seed=%d] evaluations=%d compared=%d distinct_nontrivial=%d obligations=%s "
+    print("[%s%s %s seed=%d] evaluations=%d compared=%d distinct_nontrivial=%d obligations=%s "
           "disagreements=%d violations=%d known=%d wall=%.1fs"
-          % (self.prop, self.tier, self.seed, self.evaluations, self.compared, len(self.nontrivial),
+          % (self.prop, self.tag, self.tier, self.seed, self.evaluations, self.compared, len(self.nontrivial),
              ("%d/%d" % (sum(o["ok"] for o in self.audit["obligations"]), len(self.audit["obligations"])))
              if self.audit else "-", len(self.disagreements), n_viol, len(self.known_seen),
              time.time() - self.t0))
@@ -390,5 +393,5 @@ class Run:
     ev = {"property_id": self.prop, "tier": self.tier, "seed": self.seed, "level": "proof",
           "coverage": cov, "assumptions": self.assumptions, "wall_s": round(time.time() - self.t0, 2),
           "violations": n_viol}
-    with open(os.path.join(VERIF, "evidence", self.prop + ".json"), "w") as fh:
+    with open(os.path.join(VERIF, "evidence", self.fileid + ".json"), "w") as fh:
       json.dump(ev, fh, indent=1, default=str)
